@@ -265,6 +265,12 @@ func (l *lexer) emit(t TokenType) {
 
 // nextToken returns the next token from the input.
 // The second value is false when there are no more tokens
+// drain consumes the remaining tokens so that the lexing goroutine exits.
+func (l *lexer) drain() {
+	for range l.tokens {
+	}
+}
+
 func (l *lexer) nextToken() (token, bool) {
 	tok, closed := <-l.tokens
 	return tok, closed
